@@ -130,8 +130,10 @@ def _mk(kinds):
     tofu.sqlite3 = _RealSqlite(db, ctl) if real else FakeSqlite(db, ctl)
     tofu.datetime = FakeDatetime
     tofu.get_certificate_fingerprint = lambda cert: cert      # certificates are represented by their fingerprint here
-    t = TOFUDatabase.__new__(TOFUDatabase)
-    t.db_path = "model.db"
+    import pathlib
+    t = TOFUDatabase(pathlib.Path("model.db"))     # real constructor: its schema statement goes to the back end
+    ctl.n = 0
+    ctl.log = []
     return t, db, ctl
 
 
